@@ -108,6 +108,21 @@ def op_strategy(counts=False):
 
 # ---------------------------------------------------------------------------
 
+def _held(obj):
+    """Snapshot of a caller-owned plain argument (list / dict of plain
+    values); `_same_arg` raises if the library changed it."""
+    import copy
+    return copy.deepcopy(obj)
+
+
+def _same_arg(what, obj, held):
+    from .core import Violation
+    if type(obj) is not type(held) or obj != held:
+        raise Violation("argument-modified", "%s changed the %s it was "
+                        "given: %r -> %r" % (what, type(held).__name__,
+                                             held, obj))
+
+
 class Outcome:
     """Result of applying one op."""
     def __init__(self, result=None, results=None, args=(), inplace=None,
@@ -268,8 +283,11 @@ def apply(t, op):
 
             def sel(v, i, md):
                 return i in ks
+        held = _held(sel) if op["how"] == "ids" else None
         r = t.filter(sel, axis=op["axis"], invert=op["invert"],
                      inplace=op["inplace"])
+        if held is not None:
+            _same_arg("filter", sel, held)
         return Outcome(r, inplace=op["inplace"])
     if name == "drop_all":
         # filtering an axis down to nothing is allowed (the 'empty' error
@@ -292,7 +310,11 @@ def apply(t, op):
     if name == "sort_order":
         ids = [str(i) for i in t.ids(axis=op["axis"])]
         p = hops.perm_from_key(len(ids), op["key"])
-        return Outcome(t.sort_order([ids[i] for i in p], axis=op["axis"]))
+        order = [ids[i] for i in p]
+        held = _held(order)
+        r = t.sort_order(order, axis=op["axis"])
+        _same_arg("sort_order", order, held)
+        return Outcome(r)
     if name == "transpose":
         return Outcome(t.transpose())
     if name == "copy":
@@ -314,8 +336,10 @@ def apply(t, op):
         new = [mp.get(i, i) for i in ids]
         if len(set(new)) != len(new):
             return Outcome(skipped="non-injective renaming")
+        held = _held(mp)
         r = t.update_ids(mp, axis=op["axis"], strict=op["strict"],
                          inplace=op["inplace"])
+        _same_arg("update_ids", mp, held)
         return Outcome(r, inplace=op["inplace"])
     if name == "add_metadata":
         ids = [str(i) for i in t.ids(axis=op["axis"])]
@@ -323,10 +347,15 @@ def apply(t, op):
         md = {i: {op["key"]: "added-%s" % i} for i, k in zip(ids, mk) if k}
         if op.get("unknown"):
             md["id-not-in-table"] = {op["key"]: "zzz"}
+        held = _held(md)
         t.add_metadata(md, axis=op["axis"])
+        _same_arg("add_metadata", md, held)
         return Outcome(t, inplace=True)
     if name == "del_metadata":
-        t.del_metadata(keys=op["keys"], axis=op["axis"])
+        keys = _held(op["keys"])
+        t.del_metadata(keys=keys, axis=op["axis"])
+        _same_arg("del_metadata", keys, op["keys"]) if keys is not None \
+            else None
         return Outcome(t, inplace=True)
     if name == "transform":
         if op["fn"] in ("div_sum",):
@@ -400,7 +429,12 @@ def apply(t, op):
         if set(map(str, other.ids(axis=op["axis"]))) & \
                 set(map(str, t.ids(axis=op["axis"]))):
             return Outcome(skipped="concat operands not disjoint")
-        r = t.concat([other], axis=op["axis"])
+        others = [other]
+        r = t.concat(others, axis=op["axis"])
+        if len(others) != 1 or others[0] is not other:
+            from .core import Violation
+            raise Violation("argument-modified", "concat changed the list "
+                            "of tables it was given")
         return Outcome(r, args=[other])
     if name == "align_to":
         other = make_other(t, op["other"], "align")
